@@ -38,6 +38,7 @@ import (
 	"sync"
 	"sync/atomic"
 	"time"
+	"unicode/utf8"
 
 	"github.com/hashicorp/go-hclog"
 	"github.com/sirupsen/logrus"
@@ -118,8 +119,18 @@ type mid struct {
 
 const alphabet = "abcdefghijklmnopqrstuvwxyz0123456789"
 
-func payload(seed int64, m mid) string {
-	x := uint64(seed)*0x9E3779B97F4A7C15 + uint64(m.P)*0xBF58476D1CE4E5B9 + uint64(m.K)*0x94D049BB133111EB + uint64(m.S)
+// hostile pieces a message is assembled from: every logger kind must deliver them INTACT (a back end that escapes —
+// JSON — is compared through its own escaping rule, see jsonRule).  No line endings here (sinks are parsed line by
+// line; line endings are covered by the rendering scenarios) and never the text "{p" (start of a message header).
+var hostilePieces = []string{
+	"%", "%d", "%s", "%!", "%%", "%v%v", "100% done", "%", "%+v", "%[1]d", "%!(EXTRA", "50%",
+	"\\", "\\n", "\\\\", "\"", "'", "`", "\"quoted\"", "{", "}", "{}", "{\"a\":1,\"b\":[true,null]}", "[1,2]", "\":\"",
+	"\t", "\t\t", "\x00", "\xff", "\xfe\xff", "\xc3", "\xe2\x82", "é", "日本語", " x", "�",
+	" ", "  ", "   lead", "trail   ", ": ", "): ", "] ", "[x] Output: ", "|", "=", "<>&", "&amp;", "\x1b[31m", "\x7f", "\x01\x02",
+}
+
+func hostile(seed int64, m mid, salt uint64) string {
+	x := uint64(seed)*0x9E3779B97F4A7C15 + uint64(m.P)*0xBF58476D1CE4E5B9 + uint64(m.K)*0x94D049BB133111EB + uint64(m.S) + salt*0xD6E8FEB86659FD93
 	next := func() uint64 {
 		x ^= x << 13
 		x ^= x >> 7
@@ -127,37 +138,88 @@ func payload(seed int64, m mid) string {
 		return x
 	}
 	next()
-	var n int
+	word := func(n int) string {
+		b := make([]byte, n)
+		for i := range b {
+			b[i] = alphabet[next()%uint64(len(alphabet))]
+		}
+		return string(b)
+	}
+	var sb strings.Builder
 	switch next() % 16 {
-	case 0:
-		n = 0
+	case 0: // empty
 	case 1:
-		n = 1
-	case 2, 3, 4, 5:
-		n = 5 + int(next()%20)
-	case 6, 7, 8, 9, 10:
-		n = 30 + int(next()%60)
-	case 11, 12:
-		n = 120 + int(next()%100)
+		sb.WriteString(hostilePieces[next()%uint64(len(hostilePieces))])
 	case 13:
-		n = 440 + int(next()%80) // around the 500-byte buffers pooled by the diode writer
+		sb.WriteString(word(440 + int(next()%80))) // very long word, around the 500-byte buffers pooled by the diode writer
 	case 14:
-		n = 600 + int(next()%300)
+		sb.WriteString(word(600 + int(next()%300)))
 	default:
-		n = 2 + int(next()%4)
+		n := 1 + int(next()%10)
+		for i := 0; i < n; i++ {
+			if next()%3 == 0 {
+				sb.WriteString(word(1 + int(next()%12)))
+			} else {
+				sb.WriteString(hostilePieces[next()%uint64(len(hostilePieces))])
+			}
+		}
 	}
-	b := make([]byte, n)
-	for i := range b {
-		b[i] = alphabet[next()%uint64(len(alphabet))]
-	}
-	return string(b)
+	return strings.ReplaceAll(sb.String(), "{p", "{q")
 }
 
-func token(seed int64, m mid) string {
-	return fmt.Sprintf("{p%02d.%c.%04d|%s}", m.P, m.S, m.K, payload(seed, m))
+func header(m mid) string { return fmt.Sprintf("{p%02d.%c.%04d|", m.P, m.S, m.K) }
+
+// token: the message as ONE string argument
+func token(seed int64, m mid) string { return header(m) + hostile(seed, m, 0) + "}" }
+
+// msgArgs: the arguments of the Log / LogError call for message m: one string, or (every 5th message) several
+// arguments mixing hostile strings with an int and an error
+func msgArgs(seed int64, m mid) []interface{} {
+	if m.K%5 != 3 {
+		return []interface{}{token(seed, m)}
+	}
+	return []interface{}{header(m) + hostile(seed, m, 1), 40 + m.K, errors.New(hostile(seed, m, 2)), m.P, hostile(seed, m, 3) + "}"}
 }
 
-var tokenRe = regexp.MustCompile(`\{p(\d{2})\.([oe])\.(\d{4})\|([a-z0-9]*)\}`)
+// expectedText: what a back end must render for message m.  println: operands separated by blanks (log.Println,
+// fmt.Sprintln: string / std / logr-based loggers); sprint: fmt.Sprint (JSON and asynchronous loggers)
+func expectedText(seed int64, m mid, sprint, single bool) string {
+	if single {
+		return token(seed, m)
+	}
+	if sprint {
+		return fmt.Sprint(msgArgs(seed, m)...)
+	}
+	return strings.TrimSuffix(fmt.Sprintln(msgArgs(seed, m)...), "\n")
+}
+
+// jsonRule: what a JSON back end makes of a string once its line is decoded again: every byte that is not part of a
+// valid UTF-8 sequence becomes U+FFFD (encoding/json, zerolog, zap, slog all do this); everything else round-trips
+func jsonRule(t string) string {
+	var sb strings.Builder
+	for i := 0; i < len(t); {
+		r, size := utf8.DecodeRuneInString(t[i:])
+		if r == utf8.RuneError && size == 1 {
+			sb.WriteString("�")
+		} else {
+			sb.WriteString(t[i : i+size])
+		}
+		i += size
+	}
+	return sb.String()
+}
+
+var headerRe = regexp.MustCompile(`\{p(\d{2})\.([oe])\.(\d{4})\|`)
+
+func parseHeader(t string) (mid, bool) {
+	m := headerRe.FindStringSubmatch(t)
+	if m == nil {
+		return mid{}, false
+	}
+	p, _ := strconv.Atoi(m[1])
+	k, _ := strconv.Atoi(m[3])
+	return mid{P: p, S: m[2][0], K: k}, true
+}
 
 // ---------------------------------------------------------------------------------------------------------------
 // harness-side sinks
@@ -295,6 +357,8 @@ type sink struct {
 	allowed   func(mid) bool
 	foreign   *regexp.Regexp // lines that are not messages but legitimate
 	src       string         // logger source expected in the prefix (std / async formats)
+	sprint    bool           // the back end renders the arguments with fmt.Sprint (else: Println rule)
+	single    bool           // messages were sent as ONE string argument (scripts)
 	atClose   bool           // the content is taken the moment Close returns (no grace period)
 	snap      []byte         // that content
 	snapped   bool
@@ -378,23 +442,27 @@ func (s *sink) parse(seed int64) (corrupt []string, unexpected []string) {
 				}
 			}
 		case "embedded":
-			all := tokenRe.FindAllString(ln, -1)
-			if len(all) != 1 || strings.Count(ln, "{p") != 1 {
-				corrupt = append(corrupt, "line does not carry exactly one message: "+clip(ln))
-				continue
-			}
-			tok = all[0]
+			tok = ln
 		}
-		m := tokenRe.FindStringSubmatch(tok)
-		if m == nil || m[0] != tok {
+		id, ok := parseHeader(tok)
+		if !ok || strings.Count(tok, "{p") != 1 {
 			corrupt = append(corrupt, "not exactly one message: "+clip(ln))
 			continue
 		}
-		p, _ := strconv.Atoi(m[1])
-		k, _ := strconv.Atoi(m[3])
-		id := mid{P: p, S: m[2][0], K: k}
-		if m[4] != payload(seed, id) {
-			corrupt = append(corrupt, "payload altered: "+clip(ln))
+		exp := expectedText(seed, id, s.sprint, s.single)
+		switch s.format {
+		case "json":
+			exp = jsonRule(exp)
+		case "embedded":
+			// funcr renders the message (which ends with the newline of Sprintln) with strconv.Quote
+			if strings.Count(ln, strconv.Quote(exp+"\n")) != 1 {
+				corrupt = append(corrupt, "message altered: "+clip(ln))
+				continue
+			}
+			tok = exp
+		}
+		if tok != exp {
+			corrupt = append(corrupt, fmt.Sprintf("message altered: got %s want %s", clip(tok), clip(exp)))
 			continue
 		}
 		if stream != "" && !s.noLevel {
@@ -418,6 +486,7 @@ func (s *sink) parse(seed int64) (corrupt []string, unexpected []string) {
 }
 
 func clip(s string) string {
+	s = strings.Trim(strconv.QuoteToASCII(s), "\"")
 	if len(s) > 160 {
 		return s[:100] + " ... " + s[len(s)-50:]
 	}
@@ -771,7 +840,26 @@ func buildSimple(kind string, sc Scenario, idx int) (logs.Loggers, []*sink, erro
 	return nil, nil, fmt.Errorf("unknown kind %q", kind)
 }
 
+// the JSON logger and the asynchronous loggers render their arguments with fmt.Sprint, everything else with the
+// Println rule (log.Println / fmt.Sprintln)
+func usesSprint(name string) bool {
+	return strings.HasPrefix(name, "json") || strings.HasPrefix(name, "writer#") || strings.HasPrefix(name, "async")
+}
+
 func build(sc Scenario) (*built, error) {
+	b, err := build0(sc)
+	if err == nil {
+		for _, sk := range b.sinks {
+			sk.sprint = usesSprint(sk.name)
+		}
+		for _, sk := range b.appendS {
+			sk.sprint = usesSprint(sk.name)
+		}
+	}
+	return b, err
+}
+
+func build0(sc Scenario) (*built, error) {
 	b := &built{closeFn: func() {}}
 	deferredFill = nil
 	switch sc.Kind {
@@ -1087,9 +1175,9 @@ func runOnce(sc Scenario, res *WResult, emitCase bool) (ob runObs) {
 			for _, o := range progs[p] {
 				switch o.Op {
 				case opLog:
-					L.Log(token(sc.Seed, mid{p, 'o', o.K}))
+					L.Log(msgArgs(sc.Seed, mid{p, 'o', o.K})...)
 				case opErr:
-					L.LogError(token(sc.Seed, mid{p, 'e', o.K}))
+					L.LogError(msgArgs(sc.Seed, mid{p, 'e', o.K})...)
 				case opSetSource:
 					src := []string{"srcA", "srcB"}[(p+o.K)%2]
 					if b.srcFor != nil {
@@ -1443,15 +1531,12 @@ type gateWriter struct {
 }
 
 func (g *gateWriter) Write(p []byte) (int, error) {
-	m := tokenRe.FindSubmatch(p)
-	if m == nil {
+	id, ok := parseHeader(string(p))
+	if !ok {
 		g.bad.Store("slow writer received something that is not a message: " + clip(string(p)))
 		return len(p), nil
 	}
-	pi, _ := strconv.Atoi(string(m[1]))
-	k, _ := strconv.Atoi(string(m[3]))
-	id := mid{pi, m[2][0], k}
-	if string(m[4]) != payload(g.seed, id) || !asyncLineRe.Match(bytes.TrimSuffix(p, []byte("\n"))) {
+	if !bytes.HasSuffix(p, []byte(token(g.seed, id)+"\n")) || !asyncLineRe.Match(bytes.TrimSuffix(p, []byte("\n"))) {
 		g.bad.Store("slow writer received an altered message: " + clip(string(p)))
 	}
 	g.arrived <- id
@@ -1597,12 +1682,9 @@ type spinGate struct {
 }
 
 func (g *spinGate) Write(p []byte) (int, error) {
-	m := tokenRe.FindSubmatch(p)
-	id := mid{-1, 'o', -1}
-	if m != nil {
-		pi, _ := strconv.Atoi(string(m[1]))
-		k, _ := strconv.Atoi(string(m[3]))
-		id = mid{pi, m[2][0], k}
+	id, ok := parseHeader(string(p))
+	if !ok {
+		id = mid{-1, 'o', -1}
 	}
 	g.arrived <- id
 	d := <-g.release
@@ -1839,7 +1921,7 @@ func runAlias(sc Scenario, res *WResult) {
 	// observations, by identity
 	var obsTerms []string
 	for id := 1; id <= aliasUniverse; id++ {
-		sk := &sink{name: fmt.Sprintf("logger#%d", id), format: "plain", read: content[id]}
+		sk := &sink{name: fmt.Sprintf("logger#%d", id), format: "plain", read: content[id], single: true}
 		corrupt, _ := sk.parse(sc.Seed)
 		if len(corrupt) > 0 {
 			res.fail("corrupt:alias", sk.name+": "+corrupt[0], sc)
